@@ -27,6 +27,8 @@ type Val struct {
 type Att struct {
 	T       *Type    `json:"t"`
 	Meta    []MetaKV `json:"meta,omitempty"`
+	// EmptyMeta: Meta is a map without entries (not nil), as left behind by delete()
+	EmptyMeta bool `json:"empty_meta,omitempty"`
 	Val     *Val     `json:"val,omitempty"`
 	Desc    string   `json:"desc,omitempty"`
 	Docs    string   `json:"docs,omitempty"`    // URL of a DocsExpr, "" = none
@@ -128,7 +130,7 @@ func buildGraph(g *Graph) *built {
 
 func (b *built) att(a *Att) *expr.AttributeExpr {
 	res := &expr.AttributeExpr{Type: b.typ(a.T), Description: a.Desc}
-	if len(a.Meta) > 0 {
+	if len(a.Meta) > 0 || a.EmptyMeta {
 		res.Meta = expr.MetaExpr{}
 		for _, kv := range a.Meta {
 			res.Meta[kv.K] = append([]string{}, kv.V...)
@@ -290,4 +292,81 @@ func (g *Graph) walkAtts(f func(a *Att)) {
 	for i := range g.Users {
 		wa(g.Users[i].Att)
 	}
+}
+
+// ---- pointer sharing added after construction ----
+
+// Share asks for one node of the built graph to be used in several places (the tree
+// shaped description cannot say that): Kind "attribute" = one *AttributeExpr becomes the
+// attribute of further fields and the element of an array; Kind "object" = one *Object
+// becomes the type of further attributes. Index selects the node.
+type Share struct {
+	Kind  string `json:"kind"`
+	Index int    `json:"index"`
+}
+
+func hasInlineObject(dt expr.DataType) bool {
+	switch t := dt.(type) {
+	case *expr.Object:
+		return true
+	case *expr.Array:
+		return hasInlineObject(t.ElemType.Type)
+	case *expr.Map:
+		return hasInlineObject(t.KeyType.Type) || hasInlineObject(t.ElemType.Type)
+	case *expr.Union:
+		for _, nat := range t.Values {
+			if hasInlineObject(nat.Attribute.Type) {
+				return true
+			}
+		}
+	}
+	return false
+}
+
+// buildShared builds the description and then applies the sharing.
+func buildShared(g *Graph, sh *Share) *built {
+	b := buildGraph(g)
+	if sh == nil {
+		return b
+	}
+	n := reach(b.root)
+	switch sh.Kind {
+	case "attribute":
+		// attributes whose type holds no inline Object: sharing them shares no Object
+		var cands []*expr.AttributeExpr
+		for _, a := range n.atts {
+			if !hasInlineObject(a.Type) {
+				cands = append(cands, a)
+			}
+		}
+		if len(cands) == 0 {
+			return b
+		}
+		a := cands[sh.Index%len(cands)]
+		// inside an object of the graph (the body of a user type when there is one) ...
+		if len(n.objs) > 0 {
+			o := n.objs[sh.Index%len(n.objs)]
+			if o.Attribute("alias_of") == nil {
+				*o = append(*o, &expr.NamedAttributeExpr{Name: "alias_of", Attribute: a})
+			}
+		}
+		// ... and twice more at the root, once as the element of an array
+		b.root = &expr.AttributeExpr{Type: &expr.Object{
+			{Name: "p", Attribute: a},
+			{Name: "p2", Attribute: a},
+			{Name: "q", Attribute: &expr.AttributeExpr{Type: &expr.Array{ElemType: a}}},
+			{Name: "r", Attribute: b.root},
+		}}
+	case "object":
+		if len(n.objs) == 0 {
+			return b
+		}
+		o := n.objs[sh.Index%len(n.objs)]
+		b.root = &expr.AttributeExpr{Type: &expr.Object{
+			{Name: "p", Attribute: &expr.AttributeExpr{Type: o}},
+			{Name: "q", Attribute: &expr.AttributeExpr{Type: &expr.Array{ElemType: &expr.AttributeExpr{Type: o}}}},
+			{Name: "r", Attribute: b.root},
+		}}
+	}
+	return b
 }
